@@ -60,7 +60,7 @@ func newKey(t *testing.T) key {
 	return key{pub, priv, pkix, id}
 }
 
-func TestVerifReplayC05(t *testing.T) {
+func TestVerifReplayC16Tls(t *testing.T) {
 	ctx := context.Background()
 	for _, nrec := range []int{1, 2, 3} {
 		for pos := -1; pos < nrec; pos++ { // position of the record whose key signs (-1: an unregistered key signs)
